@@ -95,6 +95,7 @@ func c11Check2(cs []tcue, warm bool) string {
 		snaps[k] = snapItem(it)
 	}
 	ptrs := append([]*astisub.Item(nil), sub.Items...)
+	someMetadata(sub, len(cs))
 	if warm {
 		if p := guard(func() { prewarm(sub) }); p != "" {
 			return p
@@ -268,7 +269,7 @@ func c11CLI(c *fw.Ctx) fw.Outcome {
 
 func init() {
 	randomN := func(tier string) int64 { return tierN(tier, 30000, 1500000) }
-	cliN := func(tier string) int64 { return tierN(tier, 24, 200) }
+	cliN := func(tier string) int64 { return tierN(tier, 96, 1000) }
 	fw.Register(&fw.Property{
 		ID:    "C11",
 		Level: "exploration",
